@@ -101,6 +101,8 @@ def _T(n):
         return _T(n['inner'][0])[0] + ('->' if n.get('isArrow') else '.') + n['name'], 15
     if k == 'InitListExpr':
         return '{...}', 20
+    if k == 'RawText':
+        return n['text'], n.get('prec', 0)
     return '<%s>' % k, 20
 
 
@@ -108,6 +110,51 @@ def S(n):
     """Normalised text of an expression node (minimal parentheses, no spaces
     except inside type names)."""
     return _T(n)[0]
+
+
+_COMPL = {'<': '>=', '>=': '<', '>': '<=', '<=': '>', '==': '!=', '!=': '=='}
+
+
+class G(str):
+    """A guard atom: its normalised text, plus the condition node and the polarity under which it holds."""
+    def __new__(cls, text, node=None, pos=True):
+        o = str.__new__(cls, text)
+        o.node, o.pos = node, pos
+        return o
+
+    def as_node(self):
+        if self.pos:
+            return self.node
+        n = strip(self.node)
+        if isinstance(n, dict) and n.get('kind') == 'BinaryOperator' and n.get('opcode') in _COMPL:
+            return dict(kind='BinaryOperator', opcode=_COMPL[n['opcode']], inner=list(n['inner']))
+        return dict(kind='UnaryOperator', opcode='!', inner=[self.node])
+
+
+def guard_atoms(n, positive=True):
+    """Atomic facts (normalised texts) known when condition node n is true (positive) / false.
+    Conjunctions that hold and disjunctions that fail are split; comparisons are complemented instead of
+    prefixed with '!'; double negations are removed."""
+    n = strip(n)
+    if not isinstance(n, dict):
+        return []
+    k = n.get('kind')
+    if k == 'UnaryOperator' and n.get('opcode') == '!':
+        return guard_atoms(n['inner'][0], not positive)
+    if k == 'BinaryOperator' and n.get('opcode') == '&&':
+        if positive:
+            return guard_atoms(n['inner'][0], True) + guard_atoms(n['inner'][1], True)
+        return [G('!(' + S(n) + ')', n, False)]
+    if k == 'BinaryOperator' and n.get('opcode') == '||':
+        if not positive:
+            return guard_atoms(n['inner'][0], False) + guard_atoms(n['inner'][1], False)
+        return [G(S(n), n, True)]
+    if k == 'BinaryOperator' and n.get('opcode') in _COMPL:
+        if positive:
+            return [G(S(n), n, True)]
+        a, b = n['inner']
+        return [G('%s%s%s' % (S(a), _COMPL[n['opcode']], S(b)), n, False)]
+    return [G(S(n), n, True)] if positive else [G('!' + S(n), n, False)]
 
 
 def unparen(e):
@@ -160,7 +207,88 @@ class CFunc:
         self.jumps = []       # dict(kind, loops, guards, line)
         self.globals_used = set()
         self._cur = self.line
+        self.named = {}       # local -> init node, for locals declared with an initialiser and never re-assigned
+        self._collect_named(self.body)
         self._walk(self.body, [], [])
+
+    def _collect_named(self, body):
+        """Locals that merely name a sub-expression: written exactly once (initialiser or one plain assignment
+        outside a for-header), by a side-effect free expression over memory this function never writes."""
+        import re as _re
+        writes = {}        # name -> list of rhs nodes (None for ++ / compound / for-init / address-taken)
+        roots_written = set()
+
+        def root(text):
+            return _re.sub(r'[\[\.\-].*', '', text.lstrip('(*&'))
+
+        def rec(n, in_for_init=False):
+            if not isinstance(n, dict):
+                return
+            k = n.get('kind')
+            if k == 'ForStmt':
+                inner = (n.get('inner') or []) + [None] * 5
+                if inner[0]:
+                    rec(inner[0], True)
+                for c in inner[1:5]:
+                    rec(c, False)
+                return
+            if k == 'VarDecl':
+                if in_for_init:
+                    writes.setdefault(n['name'], []).append(None)
+                elif n.get('inner'):
+                    writes.setdefault(n['name'], []).append(n['inner'][0])
+            if k == 'BinaryOperator' and n.get('opcode') == '=':
+                lhs = S(n['inner'][0])
+                if _re.fullmatch(r'[A-Za-z_]\w*', lhs):
+                    writes.setdefault(lhs, []).append(None if in_for_init else n['inner'][1])
+                else:
+                    roots_written.add(root(lhs))
+            if k == 'CompoundAssignOperator' or (k == 'UnaryOperator' and n.get('opcode') in ('++', '--')):
+                lhs = S(n['inner'][0])
+                if _re.fullmatch(r'[A-Za-z_]\w*', lhs):
+                    writes.setdefault(lhs, []).append(None)
+                else:
+                    roots_written.add(root(lhs))
+            if k == 'UnaryOperator' and n.get('opcode') == '&':
+                writes.setdefault(S(n['inner'][0]), []).append(None)
+            for c in n.get('inner', []) or []:
+                rec(c, in_for_init)
+        rec(body)
+        params = {p for p, t in self.params}
+        for name, ws in writes.items():
+            if len(ws) != 1 or ws[0] is None or name in params:
+                continue
+            bad = []
+
+            def scan(x):
+                if isinstance(x, dict):
+                    kk = x.get('kind')
+                    if kk in ('CallExpr', 'CompoundAssignOperator', 'ConditionalOperator') or \
+                            (kk == 'UnaryOperator' and x.get('opcode') in ('++', '--')) or \
+                            (kk == 'BinaryOperator' and x.get('opcode') == '='):
+                        bad.append(x)
+                    if kk == 'ArraySubscriptExpr' and root(S(x)) in roots_written:
+                        bad.append(x)
+                    if kk == 'DeclRefExpr' and x['referencedDecl'].get('name') == name:
+                        bad.append(x)
+                    for c in x.get('inner', []) or []:
+                        scan(c)
+            scan(ws[0])
+            if not bad:
+                self.named[name] = ws[0]
+
+    def expand(self, n, depth=3):
+        """Copy of expression node n with named sub-expression locals replaced by their initialisers."""
+        if not isinstance(n, dict) or depth <= 0:
+            return n
+        n0 = strip(n)
+        if n0.get('kind') == 'DeclRefExpr' and n0['referencedDecl'].get('name') in self.named:
+            return dict(kind='ParenExpr', inner=[self.expand(self.named[n0['referencedDecl']['name']], depth - 1)])
+        if not n.get('inner'):
+            return n
+        m = dict(n)
+        m['inner'] = [self.expand(c, depth) for c in n['inner']]
+        return m
 
     def ptype(self, name):
         for n, t in self.params:
@@ -209,7 +337,7 @@ class CFunc:
             c = strip(cond) if cond else {}
             op = hi = None
             if c.get('kind') == 'BinaryOperator':
-                op, hi = c['opcode'], unparen(S(c['inner'][1]))
+                op, hi = c['opcode'], unparen(S(self.expand(c['inner'][1])))
                 if unparen(S(c['inner'][0])) != var:
                     op = hi = None
             incs = unparen(S(inc)) if inc else None
@@ -237,21 +365,20 @@ class CFunc:
             cond = n['inner'][0]
             self.ifs.append(dict(cond=cond, node=n, loops=list(loops), guards=list(guards), line=self._cur))
             self._walk(cond, loops, guards)
-            self._walk(n['inner'][1], loops, guards + [unparen(S(cond))])
+            self._walk(n['inner'][1], loops, guards + guard_atoms(cond, True))
             if len(n['inner']) > 2:
-                self._walk(n['inner'][2], loops, guards + ['!' + unparen(S(cond))])
+                self._walk(n['inner'][2], loops, guards + guard_atoms(cond, False))
             return
         if k == 'ConditionalOperator':
             c, a, b = n['inner']
             self._walk(c, loops, guards)
-            self._walk(a, loops, guards + [unparen(S(c))])
-            self._walk(b, loops, guards + ['!' + unparen(S(c))])
+            self._walk(a, loops, guards + guard_atoms(c, True))
+            self._walk(b, loops, guards + guard_atoms(c, False))
             return
         if k == 'BinaryOperator' and n.get('opcode') in ('&&', '||'):
             a, b = n['inner']
             self._walk(a, loops, guards)
-            g = unparen(S(a))
-            self._walk(b, loops, guards + [g if n['opcode'] == '&&' else '!' + g])
+            self._walk(b, loops, guards + guard_atoms(a, n['opcode'] == '&&'))
             return
         if k == 'VarDecl':
             init = n['inner'][0] if n.get('inner') else None
@@ -293,8 +420,9 @@ class CFunc:
             return
         if k == 'ArraySubscriptExpr':
             b, i = n['inner']
-            self.subs.append(dict(base=unparen(S(b)), index=unparen(S(i)), write=write, loops=list(loops),
-                                  guards=list(guards), line=self._cur, node=n))
+            self.subs.append(dict(base=unparen(S(self.expand(b))), index=unparen(S(self.expand(i))), write=write,
+                                  loops=list(loops), guards=list(guards), line=self._cur, node=n,
+                                  raw=(unparen(S(b)), unparen(S(i)))))
             self._walk(b, loops, guards)
             self._walk(i, loops, guards)
             return
